@@ -284,8 +284,50 @@ func init() {
 		ok := Eq(err.T, NilIface)
 		st.assume(Eq(ok, Not(Eq(req.T, IntLit(0)))))
 		x.httpReqFacts(st, req, reqT, ok)
-		x.funcsUsed["lib:net/http.NewRequestWithContext (on success: non-nil request with non-nil URL and Header)"] = true
+		// ghost: the bytes the request will send (spec builtin bodyBytes(req)): what its body
+		// reader holds, when that is known (bytes.NewReader / io.MultiReader of such), "" for no body
+		if x.te.StrSort == "String" && !x.te.ByteBV && len(a) == 4 && a[3].T.Sort == "Iface" {
+			rb := x.heapGet(st, "GH_rbytes", "(Array Int String)")
+			gb := x.heapGet(st, "GH_reqbody", "(Array Int String)")
+			body := Ite(Eq(a[3].T, NilIface), StrLit(""), Select(rb, Term{fmt.Sprintf("(ival %s)", a[3].T.S), "Int"}))
+			st.heap["GH_reqbody"] = Store(gb, req.T, body)
+		}
+		x.funcsUsed["lib:net/http.NewRequestWithContext (on success: non-nil request with non-nil URL and Header; its body is the reader it was given)"] = true
 		return Val{Tup: []Val{req, err}}, true
+	}
+	// bytes.NewReader(b): a fresh reader over exactly those bytes (ghost GH_rbytes)
+	libTable["bytes.NewReader"] = func(x *Exec, fr *Frame, st *State, cc *ssa.CallCommon, a []Val) (Val, bool) {
+		if x.te.StrSort != "String" || x.te.ByteBV {
+			return Val{}, false
+		}
+		x.te.SortOf(cc.Args[0].Type())
+		r := Val{T: x.freshRef(st), Typ: cc.Signature().Results().At(0).Type()}
+		// handed out as an io.Reader: identity by the pointer value
+		rb := x.heapGet(st, "GH_rbytes", "(Array Int String)")
+		st.heap["GH_rbytes"] = Store(rb, r.T, x.bytesToString(st, a[0].T))
+		x.funcsUsed["lib:bytes.NewReader (a reader over exactly the given bytes)"] = true
+		return r, true
+	}
+	// io.MultiReader(r1, r2, ...): reads the readers one after the other
+	libTable["io.MultiReader"] = func(x *Exec, fr *Frame, st *State, cc *ssa.CallCommon, a []Val) (Val, bool) {
+		if x.te.StrSort != "String" || x.te.ByteBV || len(a) != 1 || len(a[0].Elems) == 0 {
+			return Val{}, false
+		}
+		rb := x.heapGet(st, "GH_rbytes", "(Array Int String)")
+		all := StrLit("")
+		for _, e := range a[0].Elems {
+			if e.T.Sort != "Iface" {
+				return Val{}, false
+			}
+			all = mk("String", "str.++", all, Select(rb, Term{fmt.Sprintf("(ival %s)", e.T.S), "Int"}))
+		}
+		r := x.freshVal(st, "multireader", cc.Signature().Results().At(0).Type())
+		st.assume(Not(Eq(r.T, NilIface)))
+		id := x.freshRef(st)
+		st.assume(Eq(Term{fmt.Sprintf("(ival %s)", r.T.S), "Int"}, id))
+		st.heap["GH_rbytes"] = Store(x.heapGet(st, "GH_rbytes", "(Array Int String)"), id, all)
+		x.funcsUsed["lib:io.MultiReader (reads its readers one after the other)"] = true
+		return r, true
 	}
 	// req.Clone(ctx): a new request object with its own URL and header map;
 	// the header map holds the same entries as the original's
